@@ -26,7 +26,9 @@ CHECKS = {
              'qubit locations (z3), supports lie inside the qubit set and are non-empty; to_bsf/from_bsf are inverse on '
              'all 4^n operators of small codes; X-(Z-)syndrome depends only on the Z-(X-)half for two symbolic errors; '
              'the assembly of a user-defined StabilizerCode with symbolic supports/letters produces exactly the BSF '
-             'image; index tables are invariant under every modelled iteration order of str-keyed sets (hash seed).',
+             'image; index tables are invariant under every modelled iteration order of str-keyed sets (hash seed); an '
+             'object built after other code objects were used in the same process (solver-chosen, realised, one forked '
+             'process per history) equals the object a fresh process builds.',
         note='Trusted: as C01; hash randomisation modelled as 3 solver-chosen iteration orders of sets containing '
              'str/bytes (ints and int tuples hash deterministically in CPython); replay runs real interpreters with 6 '
              'hash seeds. User-defined codes on a fixed scaffold, <= 2x2 (quick) incidences.',
@@ -76,7 +78,8 @@ CHECKS = {
              'quotient, np.arange = validated IEEE model); candidate-driven exploration + stand-alone QF_BVFP queries '
              '(cvc5) decide that exactly (max-min)/step+1 values are returned, starting at min, none a step beyond max, '
              'for every literal on the grid; get_direction_from_bias_ratio is decided over all real eta >= 0; '
-             'generate_input + read_input_dict are explored over solver-chosen bias-ratio lists on an in-memory FS.',
+             'generate_input + read_input_dict are explored over solver-chosen bias-ratio lists on an in-memory FS, and over '
+             'ordered pairs of invocations in one process (bias ratio x noise deformation each, one forked process per pair).',
         note='np.arange modelled (validated against real numpy on 3000 triples per run); value claim beyond the first '
              'two elements follows numpy\'s own progression (ulps); files part is a finite realised configuration list.',
         technique='symbolic execution of real Python with IEEE-754 terms (symx) + cvc5/z3 QF_BVFP; z3 NRA', ref='3/C19'),
@@ -93,10 +96,13 @@ CHECKS = {
     'C18': dict(
         text='The real error_probability (product and log form) runs on a fully symbolic error with arbitrary per-qubit '
              'distributions; z3 (LRA) shows every factor is the channel probability of the letter on that qubit, that '
-             'the result is the single reduction over exactly those n factors, and that the four letters sum to one.',
+             'the result is the single reduction over exactly those n factors, and that the four letters sum to one. The log '
+             'form additionally runs on IEEE-754 doubles (np.log uninterpreted under libm\'s contract): cvc5 proves it '
+             'finite whenever all factors are positive doubles. The Metropolis step of the splitting method is decided '
+             'with symbolic log-probabilities for two simulations stepped one after the other.',
         note='probability_distribution is a stub (arbitrary distributions); np.prod/np.sum/np.log observed at the numpy '
-             'proxy; floats are reals.',
-        technique='symbolic execution of real Python (symx) + z3 LRA; observation-point decomposition', ref='3/C18'),
+             'proxy; floats are reals except in C18/fp/* (n = 4..8, three concrete error patterns).',
+        technique='symbolic execution of real Python (symx) + z3 LRA; IEEE-754 terms + cvc5 QF_UFBVFP', ref='3/C18'),
     'C03': dict(
         text='Bounded symbolic execution of the real bs_prod (all 9 representation pairs x 1-D/2-D stack shapes), '
              'converters, bsf_wt, brank and measure_syndrome with every input bit symbolic; z3 decides each '
@@ -112,7 +118,8 @@ CHECKS = {
              'run on a fully symbolic 2n-bit error; z3 proves success <=> membership in the row space of H (spec: '
              'certified kernel basis), codespace <=> zero syndrome, logical bits = anticommutation flags, linearity '
              'and coset invariance for all 4^n errors of every configuration in the bound (n<=100 quick, <=200 '
-             'thorough, all deformations).',
+             'thorough, all deformations); the logical effect is also decided for the dense single-row (1,2n) and the '
+             'two-row batch representation of the error (all branches of get_effective_error).',
         note='Trusted: z3, symx proxies, csr_shim, the independently certified GF(2) kernel/frame (re-checked by '
              'integer arithmetic). Where the direct query is out of reach an invertible (certified) change of '
              'variables e=[S|LX|LZ|D]v is used; H and the logicals are taken from the real object (C01/C02).',
@@ -122,7 +129,8 @@ CHECKS = {
         text='Real MatchingDecoder + get_weights with MatchStub: z3 decides that no competitor correction with the same '
              'sector syndrome has smaller TRUE log-likelihood weight (LLR of the X-/Z-flip marginal, ln uninterpreted) '
              'given that PyMatching is minimum-weight for the matrix and weights panqec handed it - i.e. the wiring '
-             '(Hz with X weights, Hx with Z weights, sector halves). With uniform weights, real decode + real is_success '
+             '(Hz with X weights, Hx with Z weights, sector halves, and the options passed to the engine: the stub models '
+             'pymatching\'s documented merge strategies for parallel edges). With uniform weights, real decode + real is_success '
              'on a symbolic error of weight <= floor((d-1)/2): always corrected (toric / planar / rotated planar).',
         note='Exactness of PyMatching itself, and the union-find / sweep-match end-to-end guarantees, are NOT decided '
              '(their control flow is the syndrome).',
@@ -132,7 +140,8 @@ CHECKS = {
              'xor (X-part column of H at the edge), all edges x all 2^m states; sweep_move from a symbolic window state '
              '(the three sweep faces of one vertex), arbitrary prior correction on the candidate edges and a symbolic '
              'tie-break draw: state change == face syndrome of the correction change, correction stays Z-only - one '
-             'inductive step of the invariant, for every vertex x sweep direction.',
+             'inductive step of the invariant, for every vertex x sweep direction. Realised: the decode loop with scripted '
+             'steps, and flip_edge after decoders of the sibling code classes (same size) were used in the same process.',
         note='Termination/success of the automaton is outside. Seam (wrap-around / boundary) and interior edges are '
              'separate obligations.',
         technique='symbolic execution of real Python with symbolic lattice coordinates (symx) + z3', ref='3/C10'),
@@ -140,7 +149,9 @@ CHECKS = {
         text='Real run_once with stub noise model / decoder returning ARBITRARY binary vectors: recorded syndrome, '
              'effective_error, codespace, success are decided equal to their definitions for all (error, correction) '
              'pairs; real DirectSimulation run(k1); run(k2) with symbolic run lengths: list lengths == n_runs == k1+k2, '
-             'estimator and standard error formulas, every generate() gets the simulation\'s own rng.',
+             'estimator and standard error formulas, every generate() gets the simulation\'s own rng. Realised with the real '
+             'classes and engines: a simulation\'s results (same seed) are bit-for-bit those of a fresh process whatever '
+             'simulation ran before it in the process (solver-chosen ordered pairs, shared code objects).',
         note='The statistical claim (unbiased estimate of the exact failure probability) is not decided.',
         technique='symbolic execution of real Python (symx) + z3', ref='3/C11'),
     'C12': dict(
@@ -158,7 +169,9 @@ CHECKS = {
              'values and recorder registries; z3 decides that the multiset of constructed (class, code params, noise '
              'params, decoder params, rate) equals the requested Cartesian product for all values (duplicates included), '
              'for every axis-length combination and spec form in the bound. Registry names and params round-trips are '
-             'finite ground tables over the real classes.',
+             'finite ground tables over the real classes; solver-chosen (realised) lists of REAL noise / decoder / code '
+             'entries are expanded by the real classes and every built simulation must be and record exactly one '
+             'requested combination (direction, deformation name and kwargs, distribution, decoder parameters).',
         note='Parameter values are opaque integers; registries stubbed by recorders for the expansion part only.',
         technique='symbolic execution of real Python (symx) + z3 multiset equality; ground tables', ref='3/C13'),
     'C14': dict(
@@ -174,7 +187,8 @@ CHECKS = {
              'estimates and their own standard errors, sector counts and estimates equal their definitions for all trial '
              'contents, for every enumerated split of the trials over entries / files / orders.',
         note='Floats are reals; sqrt / k-th roots are fresh variables with defining constraints; threshold fitting is '
-             'stubbed out (C16). File discovery and container formats are I/O and outside.',
+             'stubbed out (C16). File discovery and container formats are realised layouts on real temporary files (one '
+             'forked process each, also after another Analysis object was evaluated in the same process).',
         technique='symbolic execution of real Python/pandas (symx) + z3 NRA', ref='3/C15'),
     'C17': dict(
         text='The real in_codespace, is_logical_error and bsf_wt run on a fully symbolic Pauli operator; z3 shows no '
